@@ -586,6 +586,132 @@ func formatsCase(c Case, dir string) string {
 	return ""
 }
 
+// ---- C20 (conformance of the event model): the real `taskctl watch` on the real kernel + fsnotify ----
+
+func watchRealCase(c Case, dir string) string {
+	logf := filepath.Join(dir, "events.log")
+	for _, f := range []string{"watched.txt", "second.txt", "xcluded.txt", "other.md"} {
+		os.WriteFile(filepath.Join(dir, f), []byte("0\n"), 0o644)
+	}
+	events := ""
+	if len(c.Args) > 0 {
+		events = "    events: [" + strings.Join(c.Args, ", ") + "]\n"
+	}
+	y := fmt.Sprintf("tasks:\n  log:\n    command: 'echo \"EV $EventName $EventPath\" >> %s'\nwatchers:\n  w1:\n    watch: [\"*.txt\"]\n    exclude: [\"x*\"]\n%s    task: log\n", logf, events)
+	os.WriteFile(filepath.Join(dir, "tasks.yaml"), []byte(y), 0o644)
+	cmd := exec.Command(os.Getenv("VERIF_TASKCTL"), "watch", "w1")
+	cmd.Dir = dir
+	cmd.Env = []string{"HOME=" + filepath.Join(dir, "home"), "PATH=/usr/bin:/bin"}
+	var out strings.Builder
+	cmd.Stdout, cmd.Stderr = &out, &out
+	if err := cmd.Start(); err != nil {
+		return "infra: " + err.Error()
+	}
+	defer func() { cmd.Process.Kill(); cmd.Wait() }()
+	lines := func() []string {
+		b, _ := os.ReadFile(logf)
+		var ls []string
+		for _, l := range strings.Split(string(b), "\n") {
+			if strings.HasPrefix(l, "EV") {
+				ls = append(ls, strings.TrimSpace(strings.TrimPrefix(l, "EV")))
+			}
+		}
+		return ls
+	}
+	waitFor := func(n int, d time.Duration) []string {
+		deadline := time.Now().Add(d)
+		for time.Now().Before(deadline) {
+			if ls := lines(); len(ls) >= n {
+				return ls
+			}
+			time.Sleep(100 * time.Millisecond)
+		}
+		return lines()
+	}
+	// start-up run: one line with empty event fields
+	if ls := waitFor(1, 20*time.Second); len(ls) < 1 {
+		return "KIND:watch-no-startup-run:the watcher's task did not run at start-up within 20 s; output: " + firstLines(out.String())
+	}
+	time.Sleep(1500 * time.Millisecond) // let the watcher register its paths
+	subscribed := func(ev string) bool {
+		if len(c.Args) == 0 {
+			return true
+		}
+		for _, a := range c.Args {
+			if a == ev {
+				return true
+			}
+		}
+		return false
+	}
+	type step struct {
+		name   string
+		do     func()
+		path   string
+		expect []string // event names of which at least one must be reported (if subscribed); empty: nothing may be reported
+	}
+	steps := []step{
+		{"write watched", func() { os.WriteFile(filepath.Join(dir, "watched.txt"), []byte("1\n"), 0o644) }, "watched.txt", []string{"write"}},
+		{"write excluded", func() { os.WriteFile(filepath.Join(dir, "xcluded.txt"), []byte("1\n"), 0o644) }, "", nil},
+		{"chmod watched", func() { os.Chmod(filepath.Join(dir, "watched.txt"), 0o600) }, "watched.txt", []string{"chmod"}},
+	}
+	if c.K > 0 { // thorough: more operations, then the destructive ones
+		steps = append(steps,
+			step{"write unrelated", func() { os.WriteFile(filepath.Join(dir, "other.md"), []byte("1\n"), 0o644) }, "", nil},
+			step{"write second", func() { os.WriteFile(filepath.Join(dir, "second.txt"), []byte("2\n"), 0o644) }, "second.txt", []string{"write"}},
+			step{"write watched again", func() { os.WriteFile(filepath.Join(dir, "watched.txt"), []byte("3\n"), 0o644) }, "watched.txt", []string{"write"}},
+			step{"create unwatched new file", func() { os.WriteFile(filepath.Join(dir, "new.txt"), []byte("n\n"), 0o644) }, "", nil},
+			step{"rename second", func() { os.Rename(filepath.Join(dir, "second.txt"), filepath.Join(dir, "moved.txt")) }, "second.txt", []string{"rename"}},
+			step{"remove watched", func() { os.Remove(filepath.Join(dir, "watched.txt")) }, "watched.txt", []string{"remove", "chmod"}},
+		)
+	}
+	seen := len(lines())
+	for _, st := range steps {
+		st.do()
+		var want []string
+		for _, e := range st.expect {
+			if subscribed(e) {
+				want = append(want, e)
+			}
+		}
+		if len(want) > 0 {
+			ls := waitFor(seen+1, 15*time.Second)
+			time.Sleep(2500 * time.Millisecond) // further events of the same operation
+			ls = lines()
+			newl := ls[seen:]
+			seen = len(ls)
+			ok := false
+			for _, l := range newl {
+				f := strings.Fields(l)
+				if len(f) != 2 {
+					return fmt.Sprintf("KIND:watch-bad-event-line:after %q the task printed %q", st.name, l)
+				}
+				if f[1] != st.path {
+					return fmt.Sprintf("KIND:watch-wrong-path:after %q the task ran for path %q, expected %q", st.name, f[1], st.path)
+				}
+				if !subscribed(f[0]) {
+					return fmt.Sprintf("KIND:watch-unsubscribed-event-ran:after %q the task ran for event %q which is not subscribed (%v)", st.name, f[0], c.Args)
+				}
+				for _, w := range want {
+					if f[0] == w {
+						ok = true
+					}
+				}
+			}
+			if !ok {
+				return fmt.Sprintf("KIND:watch-event-missed:after %q no task run for %v on %s within 15 s (new lines %v); output: %s", st.name, want, st.path, newl, firstLines(out.String()))
+			}
+		} else {
+			time.Sleep(3500 * time.Millisecond)
+			ls := lines()
+			if len(ls) != seen {
+				return fmt.Sprintf("KIND:watch-unobserved-path-ran:after %q (a path that is excluded / not selected, or an unsubscribed event) the task ran: %v", st.name, ls[seen:])
+			}
+		}
+	}
+	return ""
+}
+
 func runOne(c Case, root string) string {
 	dir, err := os.MkdirTemp(root, "case")
 	if err != nil {
@@ -611,6 +737,8 @@ func runOne(c Case, root string) string {
 		return hooksCase(c, dir)
 	case "formats":
 		return formatsCase(c, dir)
+	case "watchreal":
+		return watchRealCase(c, dir)
 	}
 	return "infra: unknown kind"
 }
@@ -789,6 +917,18 @@ func main() {
 			return false
 		}
 		rec(nil)
+	case "watch-real": // real inotify: conformance of the injected-event model and end-to-end run of `taskctl watch`
+		k := 0
+		subs := [][]string{nil}
+		if thorough {
+			k = 1
+			subs = [][]string{nil, {"write"}, {"chmod", "remove"}}
+		}
+		for _, sub := range subs {
+			if do(Case{Kind: "watchreal", Args: sub, K: k}) {
+				goto done
+			}
+		}
 	case "formats":
 		for _, outcome := range []string{"success", "fail", "skipped", "before-fail", "up-fail", "allowed"} {
 			for _, stage := range []bool{false, true} {
